@@ -199,7 +199,7 @@ fn run_all(ctx: &mut Ctx) {
         ctx.case(
             || json!({"space":"well-typed-programs","program":case.name}),
             |ctx| {
-                let src = pprog(&case.prog);
+                let src = case.source();
                 ctx.distinct(&src);
                 for cfg in &cfgs {
                     check_compiles(ctx, &mut dbs, &case.name, &src, cfg, true);
